@@ -36,7 +36,13 @@ def mutants_of(pid):
     for d in sorted(glob.glob(os.path.join(HERE, "seeded", pid, "*"))):
         p = os.path.join(d, "patch.diff")
         if os.path.exists(p):
-            out.append(("seeded:" + os.path.basename(d), {"patch": p}))
+            meta = json.load(open(os.path.join(d, "meta.json"))) if os.path.exists(os.path.join(d, "meta.json")) else {}
+            m = {"patch": p}
+            if meta.get("superseded"):
+                # no longer a breaking change on the repaired tree (its own demonstration passes): equivalent
+                m["equivalent"] = True
+                m["what"] = "SUPERSEDED: " + meta["superseded"]
+            out.append(("seeded:" + os.path.basename(d), m))
     return out
 
 
